@@ -124,4 +124,8 @@ def cells(tier):
     out.append(mcell(PID, 'payload', ['metaB', 'roEdStart'], T=T, meta_split=True))
     for N, k in ((2, 1), (2, 2), (3, 0), (1, 3)):
         out.append(rcell(PID, N, k, T=T))
+    # roMetadataReplace into a running order without stories
+    from .p_c04 import mcell as _mcell
+    for carry in ([], ['fresh'], ['metaX'], ['roEdStart', 'metaA']):
+        out.append(_mcell(PID, 'payload', carry, N=0, T=60 if tier == 'quick' else 600, gap=None))
     return out
